@@ -709,13 +709,49 @@ def stats(case, obs):
     return {"n": len(tl.specs), "flows": len(used), "maxb": maxb, "parked": parked, "waited": waited, "both": both}
 
 
+# ------------------------------------------------------------------------------------------------
+# second tie (DESIGN 2.6): DRR.put (with Scheduler.add_packet_to_queue translated in place) from the tree under test on
+# every run (vlib/translate.py, fail closed) into coq/Gen/Extracted_drr.v; bridged to the DPut step of Elem/DRR.v by
+# coq/Elem/DRRBridge.v; obligations in Props/C15_BridgeDRR.v.
+
+DRR_STATE = [("packets_received", "Z"), ("class_count", "mapZ"), ("queue_count", "mapZ"), ("queue_byte_size", "mapZ")]
+DRR_CONS = [("FxToken", ""),                          # self.packets_available.put(True)
+            ("FxStorePut", "(c : Z)")]                # self.stores[c].put(packet)
+DRR_FX = [("self.packets_available.put(True)", "FxToken", []),
+          ("self.stores[_1].put(packet)", "FxStorePut", ["Z"])]
+DRR_READS = [("self.flow2class(packet.flow_id)", "class_id", "Z"),
+             ("packet.flow_id", "flow_id", "Z"),
+             ("packet.size", "size", "Z"),
+             ("self.total_packets", "total_packets", "Z", "stale_on:queue_count")]   # sum(self.queue_count.values())
+
+
+def extracted_drr(repo):
+    import os
+    from vlib import translate as tr
+    base = os.path.join(repo, "onl", "scheduler", "base.py")
+    spec = tr.FnSpec(os.path.join(repo, "onl", "scheduler", "drr.py"), "DRR", "put", "gen_DRR_put", reads=DRR_READS,
+                     effects=DRR_FX, inline=[("add_packet_to_queue", base, "Scheduler")])
+    return tr.gen_module("onl/scheduler/drr.py: DRR.put, with onl/scheduler/base.py: Scheduler.add_packet_to_queue in place",
+                         "drr_st", "d_", DRR_STATE, "drr_fx", DRR_CONS, [spec])
+
+
 class DRRPart:
     name = "drr"
     kinds = ["drr", "drr2"]
     serves = ["C15", "C12", "C08"]
     weight = 2
     coq_imports = ["From ONL Require Import Base.Cmp Elem.Packet Elem.StoreQ Elem.DRR."]
-    props_files = {"C15": ["Props/C15_DRR.v"], "C12": ["Props/C12_DRR.v"], "C08": ["Props/C08_DRR.v"]}
+    props_files = {"C15": ["Props/C15_DRR.v", "Props/C15_BridgeDRR.v"], "C12": ["Props/C12_DRR.v"], "C08": ["Props/C08_DRR.v"]}
+
+    # ---- second tie: regenerate the translated body before the Coq build (fail closed) ----------------
+    def pre_build(self, prop_id):
+        if prop_id != "C15":
+            return
+        import os
+        from vlib import framework as fw
+        from vlib import translate as tr
+        tr.write_if_changed(os.path.join(fw.COQ, "Gen", "Extracted_drr.v"), extracted_drr(fw.REPO))
+
     _gen = ("1-4 classes with ids from 0..5 in random declaration order, weights from {1,2,3,4}; flow2class the identity "
             "(55%) or a table mapping 1-3 flows onto each class, flow ids disjoint from or overlapping with the class ids; "
             "packet sizes from sets that mix sizes below, at and above the quantum (64..4096, 1500/1501, 2999/3000); rates "
@@ -742,7 +778,11 @@ class DRRPart:
            "are not observable: the correspondence compares forwarded packets and, after every action, deficit per class, "
            "queue_count/queue_byte_size per flow, head_of_line, current_packet, len(items) of every store, packets_received, "
            "total_packets"]
-    trusted_base = {"C15": _tb, "C12": _tb, "C08": _tb}
+    _tie = ["vlib/translate.py (Python ast, fail closed; tables above the part class in props/part_drr.py) regenerates "
+            "coq/Gen/Extracted_drr.v from DRR.put and Scheduler.add_packet_to_queue of the tree under test before every build; "
+            "C15_gen_drr_put (Props/C15_BridgeDRR.v) bridges it to the DPut step of the hand-written model; "
+            "self.total_packets (a sum over a dict) is an observation"]
+    trusted_base = {"C15": _tb + _tie, "C12": _tb, "C08": _tb}
     _as = ["workloads contain only packets whose flow maps to a configured class, size > 0; rate > 0; weights are positive "
            "(a packet of an unconfigured class makes put() raise KeyError at the caller: outside C12's domain; with "
            "zero-size packets only, Lmax = 0 and the credit reaches quantum + Lmax exactly: outside C15's strict bound)",
